@@ -111,3 +111,42 @@ pub fn vx_u32_from_hex(s: &str, radix: u32) -> (r: Result<u32, VxParseIntError>)
 pub fn vx_char_from_u32(v: u32) -> (r: Option<char>) {
     core::char::from_u32(v)
 }
+
+// ---- the token stream Peekable<TokenIterator>: the tokens still to come; after them the lexer
+// yields Token::Eof for ever (proved for TokenIterator::next in unit `lexer`)
+impl<'a> Peekable<TokenIterator<'a>> {
+    pub uninterp spec fn toks(&self) -> Seq<Token>;
+
+    #[verifier::external_body]
+    pub fn peek(&mut self) -> (r: Option<&Token>)
+        ensures
+            final(self).toks() == old(self).toks(),
+            r is Some,
+            old(self).toks().len() == 0 ==> *r->Some_0 is Eof,
+            old(self).toks().len() > 0 ==> *r->Some_0 == old(self).toks()[0],
+    {
+        unimplemented!()
+    }
+
+    #[verifier::external_body]
+    pub fn next(&mut self) -> (r: Option<Token>)
+        ensures
+            r is Some,
+            old(self).toks().len() == 0 ==> r->Some_0 is Eof && final(self).toks() == old(self).toks(),
+            old(self).toks().len() > 0 ==> r->Some_0 == old(self).toks()[0] && final(self).toks() == old(self).toks().drop_first(),
+    {
+        unimplemented!()
+    }
+}
+
+pub type Iter<'a> = Peekable<TokenIterator<'a>>;
+
+/// Option<&Token>::cloned (N11)
+#[verifier::external_body]
+pub fn vx_opt_cloned_token(o: Option<&Token>) -> (r: Option<Token>)
+    ensures
+        o is None ==> r is None,
+        o is Some ==> r == Some(*o->Some_0),
+{
+    unimplemented!()
+}
